@@ -608,7 +608,7 @@ void setup(vf::Options &o) {
 void run(vf::Ctx &c) {
   g_c = &c;
   int part = c.pick("part", 2);
-  int depth = atoi(c.opt().get("depth", c.thorough() ? "6" : "4").c_str());
+  int depth = atoi(c.opt().get("depth", c.thorough() ? "7" : "4").c_str());
   if (part == 0) drive<SWorld<StdFam>, SWorld<NoFam>>(c, "shared_ptr", shared_ops(), depth, 0x5a);
   else drive<UWorld<StdFam>, UWorld<NoFam>>(c, "unique_ptr", unique_ops(), depth, 0x0b);
 }
